@@ -98,6 +98,7 @@ MUTANTS = [
     {"name": "revert-2e2ecff-hunt", "revert": "2e2ecff", "props": ["C16", "C20"]},
     {"name": "revert-dc175eb-set-from-array", "revert": "dc175eb", "props": ["C11", "C14"]},
     {"name": "revert-50ee710-datafirst-order", "revert": "50ee710", "props": ["C06"]},
+    {"name": "revert-09759d5-spelling-winner", "revert": "09759d5", "props": ["C06"]},
     # ---- C01 ------------------------------------------------------------------------------
     {"name": "c01-seq-first-element-unconverted", "props": ["C01"], "edits": [{"file": R, "old": """                try:
                     result.append(
